@@ -194,14 +194,18 @@ func (idx *KVIndex) RemoveDoc(docID string) error {
 			return fmt.Errorf("failed to unmarshal document: %v", err)
 		}
 		for _, entryKey := range doc.Entries {
+			field, ttype, term, _ := EntryKeyParse(entryKey)
+			termKey := TermKey(field, ttype, term)
+			//count before the entry is deleted, so an invalidated (zero) count is
+			//recounted including this entry and the decrement below stays correct
+			count, cerr := idx.termGetCount(tx, field, ttype, term)
+
 			err = tx.Delete(entryKey)
 			if err != nil {
 				return fmt.Errorf("failed to delete entry %s: %v", entryKey, err)
 			}
 
-			field, ttype, term, _ := EntryKeyParse(entryKey)
-			termKey := TermKey(field, ttype, term)
-			if count, err := idx.termGetCount(tx, field, ttype, term); err == nil {
+			if err := cerr; err == nil {
 				if count > 0 {
 					count = count - 1
 				}
